@@ -258,7 +258,7 @@ class FnTir:
                 if body is None:
                     self.unknown.append(("for-loop shape", e.get("sp")))
                     return ("seq", [])
-                return ("seq", [self.W_nonsink_args(over), ("loop", self.W(body["body"]), {"kind": "for", "over": text(over), "e": over, "pat": body["pat"], "sp": e.get("sp")})])
+                return ("seq", [self.W_nonsink_args(over), ("loop", self.W(body["body"]), {"kind": "for", "over": text(over), "e": over, "pat": body["pat"], "body": body["body"], "sp": e.get("sp")})])
             pre = self.W(e["scrut"])
             arms = []
             for arm in e["arms"]:
